@@ -138,7 +138,7 @@ pub fn run(ctx: &Ctx, model: &mut Model, rep: &mut Report) {
         if i < 1 {
             rep.sample(hist::to_json(&h));
         }
-        match hist::model_reply(model, &h) {
+        match hist::model_reply_parts(model, &h, PARTS) {
             None => rep.count("corr_skipped_unmodelled_inline_or_reader_panic"),
             Some(reply) => {
                 let imp = hist::run_impl(&h, |_, _| {});
@@ -152,11 +152,11 @@ pub fn run(ctx: &Ctx, model: &mut Model, rep: &mut Report) {
                         if let Some(d) = diffs.first() {
                             let part = d.part.clone();
                             let small = hist::shrink(&h, |c| {
-                                hist::model_reply(model, c)
+                                hist::model_reply_parts(model, c, PARTS)
                                     .map(|rp| hist::compare(&rp, &hist::run_impl(c, |_, _| {}), PARTS).map(|d| d.iter().any(|x| x.part == part && !x.model.contains("unmodelled"))).unwrap_or(false))
                                     .unwrap_or(false)
                             });
-                            let d2 = hist::model_reply(model, &small).and_then(|rp| hist::compare(&rp, &hist::run_impl(&small, |_, _| {}), PARTS).ok()).and_then(|v| v.into_iter().find(|x| x.part == part));
+                            let d2 = hist::model_reply_parts(model, &small, PARTS).and_then(|rp| hist::compare(&rp, &hist::run_impl(&small, |_, _| {}), PARTS).ok()).and_then(|v| v.into_iter().find(|x| x.part == part));
                             let (m, im, st) = d2.map(|x| (x.model, x.imp, x.step)).unwrap_or((d.model.clone(), d.imp.clone(), d.step));
                             rep.disagree(json!({"op": format!("graph.history part {} at step {}", part, st), "model": decode(&m), "impl": decode(&im), "history": hist::to_json(&small)}));
                         }
